@@ -459,6 +459,64 @@ async fn cache_histories(rep: &mut Report, w: &World, rng: &mut Rng, n_hist: usi
     }
 }
 
+
+async fn udp_recv(s: &tokio::net::UdpSocket, ms: u64) -> Option<(Vec<u8>, SocketAddr)> {
+    let mut buf = vec![0u8; 2048];
+    match tokio::time::timeout(Duration::from_millis(ms), s.recv_from(&mut buf)).await {
+        Ok(Ok((n, from))) => Some((buf[..n].to_vec(), from)),
+        _ => None,
+    }
+}
+
+/// A UDP association stays with the target it was created for: datagrams that other sockets of the target's host
+/// (or anybody else) send to the relay's address must not redirect what the application sends afterwards.
+async fn udp_association_stays_put(rep: &mut Report, w: &World, n: usize) {
+    use tokio::net::UdpSocket;
+    for i in 0..n {
+        let ip: IpAddr = if i % 2 == 0 { Ipv4Addr::new(127, 0, 0, 1).into() } else { std::net::Ipv6Addr::LOCALHOST.into() };
+        let (Ok(target), Ok(other), Ok(app)) = (UdpSocket::bind(SocketAddr::new(ip, 0)).await, UdpSocket::bind(SocketAddr::new(ip, 0)).await, UdpSocket::bind("127.0.0.1:0").await) else {
+            rep.inconclusive("cannot bind UDP sockets");
+            continue;
+        };
+        let target_addr = target.local_addr().unwrap();
+        let case = json!({"kind": "c07-udp-stays-put", "target": target_addr.to_string(), "other_socket_on_that_host": other.local_addr().unwrap().to_string()});
+        rep.case(Some(hash_str(&case.to_string())));
+        let local = match tokio::time::timeout(Duration::from_secs(40), w.client.create_udp_proxy("127.0.0.1:0", target_addr)).await {
+            Ok(Ok(l)) => l,
+            other => {
+                rep.inconclusive(format!("create_udp_proxy({target_addr}): {:?}", other.map(|r| r.map_err(|e| e.to_string()))));
+                continue;
+            }
+        };
+        tokio::time::sleep(Duration::from_millis(60)).await;
+        // 1: application -> target; the target learns the relay's address
+        let _ = app.send_to(b"one", local).await;
+        let Some((_, relay_addr)) = udp_recv(&target, 6000).await else {
+            rep.inconclusive(format!("first datagram did not reach {target_addr} (setup)"));
+            continue;
+        };
+        // 2: another socket of the target's host talks to the relay
+        let _ = other.send_to(b"hello from another port", relay_addr).await;
+        tokio::time::sleep(Duration::from_millis(150)).await;
+        // 3: the application sends again, several times
+        let mut at_target = 0;
+        let mut at_other = 0;
+        for k in 0..3 {
+            let _ = app.send_to(format!("again-{k}").as_bytes(), local).await;
+            if udp_recv(&target, 1500).await.is_some() {
+                at_target += 1;
+            }
+            if udp_recv(&other, 50).await.is_some() {
+                at_other += 1;
+            }
+        }
+        rep.add("udp_associations_probed_with_a_foreign_sender", 1);
+        if at_other > 0 || at_target < 3 {
+            rep.violate("destination", "udp_association+datagram_from_another_port_of_the_target_host", "udp_traffic_sent_elsewhere", format!("UDP association created for {target_addr}: after a datagram from {} had reached the relay socket, {at_target} of 3 further application datagrams arrived at {target_addr} and {at_other} at the other socket", other.local_addr().unwrap()), case);
+        }
+    }
+}
+
 async fn udp_targets(rep: &mut Report, w: &World, rng: &mut Rng, n: usize) {
     for i in 0..n {
         let target: SocketAddr = match i % 4 {
@@ -586,6 +644,7 @@ pub fn run(ctx: Ctx) -> Report {
         }
         // sequential phases
         udp_targets(&mut rep, &w, &mut rng, if quick { 24 } else { 400 }).await;
+        udp_association_stays_put(&mut rep, &w, if quick { 6 } else { 60 }).await;
         cache_histories(&mut rep, &w, &mut rng, if quick { 30 } else { 600 }, !quick).await;
         rep.add("dns_queries_answered", dns.queries.lock().unwrap().len() as u64);
         rep
@@ -603,9 +662,9 @@ pub fn run(ctx: Ctx) -> Report {
 pub fn meta() -> CheckMeta {
     CheckMeta {
         level: "exploration",
-        rule: "real Client -> real Server (TcpProxyHandler) over loopback TLS with a fake DNS server behind the real resolver (name -> 127.h(name)); requests through Client::create_proxy_stream, through the real SOCKS5 front-end, and with the destination header split over 1..n PSH frames and small read pieces into the real TcpProxyHandler on a MemPipe session: IPv4 literals (uniform, 127/8, 0.0.0.0, 255.255.255.255), IPv6 literals (uniform, ::, ::1, v4-mapped, link-local), domain names of every length class 1..255 (labels <= 63), ports {0,1,255,256,443,32767,32768,65535, the listening ports, uniform}. Oracle: the server-side hook events must contain the decoded destination and a Dial to exactly (address of the requested host, requested port); loopback-reachable ones are additionally confirmed by accept on wildcard listeners. UDP associations: UdpTarget event equals the requested socket address. Cache histories: sequences over 3 names + localhost x ports through resolve_host_with_cache directly and through full requests, each answer / dial compared with (address of THIS name, port of THIS request); plus overlapping lookups / requests for the same uncached name with 2-4 different ports (each must get its own port); thorough crosses the 60 s cache lifetime once. distinct_nontrivial = distinct (host, port, path). Also through the HTTP front-end: CONNECT authority, absolute URI with a matching Host header, absolute URI with a Host header naming another host / port / no port (the URI decides), origin-form + Host; same hosts and ports, same oracle.".into(),
+        rule: "real Client -> real Server (TcpProxyHandler) over loopback TLS with a fake DNS server behind the real resolver (name -> 127.h(name)); requests through Client::create_proxy_stream, through the real SOCKS5 front-end, and with the destination header split over 1..n PSH frames and small read pieces into the real TcpProxyHandler on a MemPipe session: IPv4 literals (uniform, 127/8, 0.0.0.0, 255.255.255.255), IPv6 literals (uniform, ::, ::1, v4-mapped, link-local), domain names of every length class 1..255 (labels <= 63), ports {0,1,255,256,443,32767,32768,65535, the listening ports, uniform}. Oracle: the server-side hook events must contain the decoded destination and a Dial to exactly (address of the requested host, requested port); loopback-reachable ones are additionally confirmed by accept on wildcard listeners. UDP associations: UdpTarget event equals the requested socket address; and an association stays with its target: after a datagram from another port of the target's host has reached the relay socket, further application datagrams still arrive at the target and not at the other socket. Cache histories: sequences over 3 names + localhost x ports through resolve_host_with_cache directly and through full requests, each answer / dial compared with (address of THIS name, port of THIS request); plus overlapping lookups / requests for the same uncached name with 2-4 different ports (each must get its own port); thorough crosses the 60 s cache lifetime once. distinct_nontrivial = distinct (host, port, path). Also through the HTTP front-end: CONNECT authority, absolute URI with a matching Host header, absolute URI with a Host header naming another host / port / no port (the URI decides), origin-form + Host; same hosts and ports, same oracle.".into(),
         assumptions: vec!["non-local connects are refused at once in this sandbox, so the real dial happens and fails fast; the Dial hook fires immediately before TcpStream::connect".into(), "fake DNS answers A records only (AAAA: empty), one address per name".into()],
-        floors: vec![("dials_to_requested_address", 500), ("requests_domain_name", 150), ("requests_ipv6_literal", 100), ("confirmed_by_loopback_accept", 30), ("cache_history_steps", 100), ("concurrent_cache_fills", 20), ("udp_targets_decoded_as_requested", 15), ("requests_via_fragmented_header", 100), ("requests_via_http_front_end", 100)],
+        floors: vec![("dials_to_requested_address", 500), ("requests_domain_name", 150), ("requests_ipv6_literal", 100), ("confirmed_by_loopback_accept", 30), ("cache_history_steps", 100), ("concurrent_cache_fills", 20), ("udp_targets_decoded_as_requested", 15), ("requests_via_fragmented_header", 100), ("requests_via_http_front_end", 100), ("udp_associations_probed_with_a_foreign_sender", 4)],
         exhaustive: false,
     }
 }
